@@ -54,7 +54,9 @@ META = dict(
          "evaluator's O(1) time test accepts a position IFF the step-by-step simulation finds the tour with the job inserted feasible "
          "(evalTime_sound, evalTime_complete, evalTime_exact; no triangle inequality needed; the stop-pruning is unreachable on a feasible "
          "tour: evalTime_never_stops); the leg/place/window scan only returns placements the constraint model accepted (evalJob_accepted, "
-         "evalJob_sound_time); capacity: the test on cached max-past/max-future/current implies the full load profile stays within "
+         "evalJob_sound_time) and, for jobs without demand, is COMPLETE as a whole: if the simulation finds any feasible leg, place and window, Any "
+         "succeeds - the stop verdict is unreachable at every leg, an accepted placement is never forgotten, the route-level test lets the job "
+         "through (scanLegs_finds, evalRoute_of_feasible_time, evalJob_any_complete_time'); capacity: the test on cached max-past/max-future/current implies the full load profile stays within "
          "capacity for every demand shape, in every dimension (cap_sound1 for one dimension; cap_sound_vec for the executable vector model with any "
          "number of dimensions; cap_complete1 / cap_exact1: on a tour with non-negative loads and for demands without a static pickup next to a "
          "larger dynamic delivery the O(1) test refuses nothing the profile admits, the caches being attained - runMax1_attained, "
@@ -65,6 +67,7 @@ META = dict(
          "single and multi-task jobs, completeness of Any for single-task jobs).",
     note=COMMON_NOTE + " Partial: whole-evaluator completeness is decided by the brute-force oracle on generated cases (the theorem covers the "
          "time test, capacity soundness in any number of dimensions and capacity exactness in one dimension for the demand shapes the readers "
-         "produce: cap_complete1, cap_exact1); the completeness of the leg/place/window scan as a whole is not proved.",
+         "produce: cap_complete1, cap_exact1, and completeness of the whole scan for jobs without demand); the combination of scan completeness "
+         "with capacity for jobs WITH demand is decided by the oracle.",
     technique="Lean 4 induction over tour suffixes (omega) + exact differential correspondence with the real evaluator + brute-force simulation oracle",
 )
